@@ -4,6 +4,7 @@ package main
 // structural necessary conditions nobody had stated. DESIGN.md §5.3 lists which change motivated which.
 
 import (
+	"go/constant"
 	"go/token"
 	"go/types"
 	"sort"
@@ -531,13 +532,19 @@ func more2NoRemovalBeforeLink(p *Program, r *Report) {
 func more2ExclusiveCreate(p *Program, r *Report) {
 	rule := "R-C05-6"
 	r.Rule(rule, "no file of the object namespace is rewritten in place: every os.OpenFile in the backend packages that can create or write (O_CREATE, O_WRONLY, O_RDWR) names O_EXCL and never O_TRUNC, with constant flags (frozen exemptions: sidecar attribute files, the named temp file that openMkTemp reopens)", 1)
-	const (
-		oWRONLY = 0x1
-		oRDWR   = 0x2
-		oCREAT  = 0x40
-		oEXCL   = 0x80
-		oTRUNC  = 0x200
-	)
+	// the flag values of the target the program was loaded for (they differ between linux and darwin)
+	flag := func(name string, dflt int64) int64 {
+		if op := p.SSA.ImportedPackage("os"); op != nil {
+			if c, ok := op.Pkg.Scope().Lookup(name).(*types.Const); ok {
+				if v, exact := constant.Int64Val(c.Val()); exact {
+					return v
+				}
+			}
+		}
+		return dflt
+	}
+	oWRONLY, oRDWR := flag("O_WRONLY", 0x1), flag("O_RDWR", 0x2)
+	oCREAT, oEXCL, oTRUNC := flag("O_CREATE", 0x40), flag("O_EXCL", 0x80), flag("O_TRUNC", 0x200)
 	n := 0
 	for _, pk := range []string{"backend", "backend/posix", "backend/scoutfs"} {
 		if p.SSAPkg[pk] == nil {
